@@ -8,7 +8,7 @@ from ..loader import AnalysisError, short
 from ..model import Model
 from ..normal import disjuncts, ext_name, negand, strip_cast
 from ..report import Result
-from ..terms import NONE, T, const, mk, show
+from ..terms import NONE, T, const, mk, show, uncopy
 from .common import analyses, env_site, last_conditions, leaves, step_types, timestep_kind, txt
 
 EXPLANATION = (
@@ -118,13 +118,63 @@ def check_types_table(res: Result, tree):
             if vfg.mk_attr(l, "observation") is not params["observation"]:
                 ok = False
                 why.append("observation not passed through")
+            ex = strip_cast(vfg.mk_attr(l, "extras"))
+            ep = params.get("extras")
+            ex_ok = ex is ep
+            if ex.kind == "bool" and ex.args[0] == "or" and len(ex.args[1]) == 2:
+                ex_ok = ex.args[1][0] is ep and ex.args[1][1].kind == "dict" and not ex.args[1][1].args[0]      # extras or {}
+            elif ex.kind == "choice" and len(ex.args[2]) == 2:
+                c = ex.args[1]
+                a, b = ex.args[2]
+                if c.kind == "cmp" and c.args[1] is ep and c.args[2] is NONE:
+                    ex_ok = (c.args[0] == "isnot" and a is ep) or (c.args[0] == "is" and b is ep)
+                elif c is ep:
+                    ex_ok = a is ep
+            elif ex.kind == "phi":
+                ex_ok = any(x is ep for x in ex.args[0]) and all(x is ep or (x.kind == "dict" and not x.args[0]) for x in ex.args[0])
+            if not ex_ok:
+                ok = False
+                why.append(f"extras {txt(ex, 3, 60)}: the extras given by the environment are not passed through")
         res.add("C03.R0", f.loc(), "types." + name, f"{name} -> {kind}, reward {rew}, discount {disc}", ok, "; ".join(why) or "as tabulated")
+
+
+def check_step_type_api(res: Result, tree):
+    """StepType.FIRST/MID/LAST are the integers 0/1/2 (the dm_env adapter relays the raw value into dm_env.TimeStep,
+    whose StepType uses exactly these), and TimeStep.first()/mid()/last() test equality with their own constant."""
+    m = tree.modules.get("jumanji.types")
+    ci = tree.classes.get("jumanji.types.StepType")
+    ts = tree.classes.get("jumanji.types.TimeStep")
+    if m is None or ci is None or ts is None:
+        raise AnalysisError("anchor jumanji.types.StepType / TimeStep not found")
+    vfg = VFG(tree, Model(tree))
+    stt = step_types(vfg)
+    want = {"FIRST": 0, "MID": 1, "LAST": 2}
+    got = {}
+    for k_, t_ in stt.items():
+        t_ = strip_cast(uncopy(t_))
+        while t_.kind == "call" and t_.args[1]:
+            t_ = strip_cast(uncopy(t_.args[1][0]))       # jnp.array(<code>, dtype) / StepType(<code>)
+        got[k_] = t_.args[0] if t_.kind == "const" else None
+    verdict = (got == want) if all(v_ is not None for v_ in got.values()) else None
+    res.add("C03.R0", ci.loc(), "types.StepType", "FIRST, MID, LAST are 0, 1, 2 (distinct; the values dm_env.StepType uses)", verdict, f"{got}")
+    self_t = mk("self", ts.qual)
+    for meth, kind in (("first", "FIRST"), ("mid", "MID"), ("last", "LAST")):
+        f = ts.methods.get(meth)
+        if f is None:
+            raise AnalysisError(f"TimeStep.{meth} not found")
+        r = strip_cast(uncopy(vfg.apply_func(f, self_t, ts, [], {}, None, None)))
+        fld = mk("attr", self_t, "step_type")
+        ok = r.kind == "cmp" and r.args[0] == "==" and {r.args[1], r.args[2]} == {fld, stt[kind]}
+        if not ok and ext_name(r) in ("jax.numpy.equal", "jax.numpy.array_equal") and len(r.args[1]) == 2:
+            ok = set(r.args[1]) == {fld, stt[kind]}
+        res.add("C03.R0", f.loc(), f"types.TimeStep.{meth}", f"{meth}() is step_type == StepType.{kind}", ok, txt(r, 4, 100))
 
 
 def check(tier: str) -> Result:
     tree = get_tree()
     res = Result(explanation=EXPLANATION)
     check_types_table(res, tree)
+    check_step_type_api(res, tree)
     n_leaves = 0
     for ea in analyses(tree):
         vfg = ea.vfg
